@@ -50,21 +50,21 @@ func shard() string {
 
 // Recorder accumulates what a check covered; it is flushed to stats-<name>-<shard>.json.
 type Recorder struct {
-	mu          sync.Mutex
-	Prop        string         `json:"prop"`
-	Name        string         `json:"name"`
-	Evals       int            `json:"evaluations"`
-	Labels      map[string]int `json:"labels"`
-	nontrivial  map[uint64]struct{}
-	NonTrivialN int      `json:"distinct_nontrivial"`
-	Samples     []any    `json:"samples"`
-	Excluded    int      `json:"excluded_known"`
-	Exhaustive  bool     `json:"exhaustive"`
-	Rule        string   `json:"rule"`
-	Assumptions []string `json:"assumptions"`
-	Known       []string `json:"known_findings_seen"`
-	Violations  int      `json:"violations"`
-	Inconclusive string  `json:"inconclusive,omitempty"`
+	mu            sync.Mutex
+	Prop          string         `json:"prop"`
+	Name          string         `json:"name"`
+	Evals         int            `json:"evaluations"`
+	Labels        map[string]int `json:"labels"`
+	nontrivial    map[uint64]struct{}
+	NonTrivialN   int      `json:"distinct_nontrivial"`
+	Samples       []any    `json:"samples"`
+	Excluded      int      `json:"excluded_known"`
+	Exhaustive    bool     `json:"exhaustive"`
+	Rule          string   `json:"rule"`
+	Assumptions   []string `json:"assumptions"`
+	Known         []string `json:"known_findings_seen"`
+	Violations    int      `json:"violations"`
+	Inconclusive  string   `json:"inconclusive,omitempty"`
 	flushEvery    int
 	shardOverride string
 	// ExtraDistinct counts non-trivial cases that are distinct by construction (complete enumerations),
